@@ -94,6 +94,12 @@ class RF24:
         after_toggle = self._reg_read(TX_FEATURE)
         if self._features == after_toggle:
             self._is_plus_variant = True
+            # a non-plus variant whose TX_FEATURE register holds 0 reads the same in both
+            # states; its features may have just been disabled. A disabled register ignores writes
+            self._reg_write(TX_FEATURE, 4)
+            if not self._reg_read(TX_FEATURE):
+                self._is_plus_variant = False
+                self._reg_write(0x50, 0x73)  # ensure they're enabled
         elif not after_toggle:  # if features are disabled
             self._reg_write(0x50, 0x73)  # ensure they're enabled
         # pre-configure features for TX operations:
